@@ -331,7 +331,7 @@ def sqrt(x): return _map(_sqrt1, x, _fdt, 'sqrt')
 
 
 def _abs1(v):
-    return abs(v)
+    return builtins.abs(v)
 
 
 def absolute(x):
@@ -1016,12 +1016,35 @@ def trapz(y, x=None, dx=1.0, axis=-1):
     raise Unsupported('trapz')
 
 
+def _argext(a, axis, less, name):
+    """assumed contract: first extremal index of a 1-D array; the universally quantified part is
+    instantiated at the index terms registered as hints (skolem indices and hint())."""
+    _log(name + ': first extremal index (ground-instantiated at hints)')
+    a = asarray(a)
+    if a.ndim != 1 or axis not in (None, 0, -1):
+        raise Unsupported(name + ' of rank %d' % a.ndim)
+    n = a.shape[0]
+    i = fresh_int(name)
+    ctx.add(i.z >= 0)
+    ctx.add((i < n).z if not isinstance(n, int) else i.z < n)
+    ai = a.at(i)
+
+    def inst(k, a=a, i=i, ai=ai, n=n):
+        k = lift(k)
+        ak = a.at(k)
+        inr = sc.And(k >= 0, k < n)
+        body = sc.And(sc.Not(less(ak, ai)), sc.Implies(k < i, less(ai, ak)))
+        return sc.Implies(inr, body).z
+    ctx.add_forall(inst)
+    return i
+
+
 def argmin(a, axis=None):
-    raise Unsupported('argmin (use contract)')
+    return _argext(a, axis, lambda x, y: x < y, 'argmin')
 
 
 def argmax(a, axis=None):
-    raise Unsupported('argmax (use contract)')
+    return _argext(a, axis, lambda x, y: x > y, 'argmax')
 
 
 def isclose(a, b, **kw):
@@ -1173,6 +1196,22 @@ class _FFT:
 
 
 fft = _FFT()
+
+
+class _NDImage:
+    @staticmethod
+    def center_of_mass(a, *args):
+        """assumed contract: (sum_i i w / sum w per axis).  Only the point-source instance is available
+        deductively: for w = A*delta_(p,q), A != 0 the result is exactly (p, q) (delta collapses the sums)."""
+        _log('ndimage.center_of_mass: point-source instance com(A*delta_p) = p')
+        a = asarray(a)
+        d = getattr(a, '_delta', None)
+        if d is None:
+            raise Unsupported('center_of_mass of a general array (only the point-source instance is modelled)')
+        return tuple(SReal(sc._toreal(lift(p).z)) for p in d)
+
+
+ndimage = _NDImage()
 
 
 # -------------------------------------------------------------------------- math
